@@ -12,6 +12,7 @@ import (
 	"runtime/debug"
 	"sync"
 	"sync/atomic"
+	"time"
 )
 
 // Pass-through aliases for everything of sync the instrumented files might name.
@@ -75,6 +76,31 @@ type Run struct {
 	// OnResume, if set, is called by the controller before every resumption of a thread:
 	// with a single thread these are exactly the statement boundaries (crash points).
 	OnResume func()
+	// WaitCost is the virtual time that passes whenever a thread had to wait for a lock
+	// (running code takes no virtual time). Instrumented code reads the clock through Now.
+	WaitCost time.Duration
+	voffset  time.Duration
+	// Waits counts lock acquisitions that had to wait.
+	Waits int
+}
+
+// Now replaces time.Now in instrumented files: the real clock plus the virtual time that has
+// passed in the controlled run in progress.
+func Now() time.Time {
+	if r := active.Load(); r != nil {
+		return time.Now().Add(r.voffset)
+	}
+	return time.Now()
+}
+
+// Until and Since replace time.Until and time.Since in instrumented files.
+func Until(t time.Time) time.Duration { return t.Sub(Now()) }
+func Since(t time.Time) time.Duration { return Now().Sub(t) }
+
+// waited is called by a thread that has just been granted a lock it found held.
+func (r *Run) waited() {
+	r.Waits++
+	r.voffset += r.WaitCost
 }
 
 // Clock is a logical time that advances every time a thread is resumed; usable as
@@ -306,7 +332,11 @@ func (m *Mutex) Lock() {
 	if r.aborting {
 		return
 	}
+	held := m.isLocked(r)
 	r.park(opLock, m) // resumed only when the mutex is free
+	if held {
+		r.waited()
+	}
 	m.epoch, m.locked = r.epoch, true
 }
 
@@ -362,7 +392,11 @@ func (m *RWMutex) Lock() {
 	if r.aborting {
 		return
 	}
+	held := !m.free(r)
 	r.park(opWLock, m)
+	if held {
+		r.waited()
+	}
 	m.sync(r)
 	m.writer = true
 }
@@ -392,7 +426,11 @@ func (m *RWMutex) RLock() {
 	if r.aborting {
 		return
 	}
+	held := m.hasWriter(r)
 	r.park(opRLock, m)
+	if held {
+		r.waited()
+	}
 	m.sync(r)
 	m.readers++
 }
